@@ -80,22 +80,19 @@ pub assume_specification<T, E> [Result::<T, E>::unwrap_or] (r: Result<T, E>, d: 
 // the six concrete oxmpl state types (opaque here) and their Python wrapper structs
 pub mod state { pub use super::State; }
 pub mod rand { pub use super::Rng; }
-#[verifier::external_body]
-pub struct OxmplRealVectorState { _p: u8 }
+pub struct OxmplRealVectorState { pub values: Vec<f64> }      // the public fields of the real struct (a wrapper may read them)
 impl State for OxmplRealVectorState { }
 impl Clone for OxmplRealVectorState {
     #[verifier::external_body]
     fn clone(&self) -> (r: Self) ensures r == *self { unimplemented!() }     // #[derive(Clone)] on plain data: faithful (ASSUMED)
 }
-#[verifier::external_body]
-pub struct OxmplSO2State { _p: u8 }
+pub struct OxmplSO2State { pub value: f64 }
 impl State for OxmplSO2State { }
 impl Clone for OxmplSO2State {
     #[verifier::external_body]
     fn clone(&self) -> (r: Self) ensures r == *self { unimplemented!() }     // #[derive(Clone)] on plain data: faithful (ASSUMED)
 }
-#[verifier::external_body]
-pub struct OxmplSO3State { _p: u8 }
+pub struct OxmplSO3State { pub x: f64, pub y: f64, pub z: f64, pub w: f64 }
 impl State for OxmplSO3State { }
 impl Clone for OxmplSO3State {
     #[verifier::external_body]
